@@ -7,7 +7,8 @@ HO(c) == HRows(c.hr)
 WhyEnvParse(c) ==
   LET p == EnvParse(HO(c), c.net, c.stream) IN
   IF p.st = "accept" THEN (IF c.res # "ok" THEN "rejects-valid-envelope"
-                           ELSE IF c.cmd # p.cmd \/ c.payload # p.payload THEN "parsed-fields-differ" ELSE "")
+                           ELSE IF c.cmd # p.cmd \/ c.payload # p.payload THEN "parsed-fields-differ"
+                           ELSE IF c.reser # EnvSer(HO(c), c.net, p.cmd, p.payload) THEN "parsed-envelope-does-not-serialise-back-to-its-network-bytes" ELSE "")
   ELSE (IF c.res = "ok" THEN "accepts-invalid-envelope:" \o p.st \o
                              (IF Len(c.stream) < 24 THEN ":short-header" ELSE IF Take(c.stream, 4) # Magic(c.net) THEN ":wrong-magic"
                               ELSE IF c.stream[20] # 0 \/ Len(c.stream) - 24 < LEval(Slice(c.stream, 17, 19)) THEN ":short-payload" ELSE ":wrong-checksum") ELSE "")
